@@ -324,6 +324,14 @@ impl ReceiveChannelReliable {
             return Ok(());
         }
 
+        if let ReliableOrder::Unordered { received_messages, .. } = &self.reliable_order {
+            if received_messages.contains(&slice.message_id) {
+                // Message already assembled and handed to the application, a late duplicate slice
+                // must not start (and reserve memory for) a reassembly that can never complete.
+                return Ok(());
+            }
+        }
+
         if !self.slices.contains_key(&slice.message_id) {
             let message_len = slice.num_slices * SLICE_SIZE;
             if self.memory_usage_bytes + message_len > self.max_memory_usage_bytes {
